@@ -117,6 +117,23 @@ def attrNats (attrs : String) (k : String) : Option (List Nat) :=
     | [k', v] => if k' == k then (v.splitOn ":").mapM String.toNat? else none
     | _ => none
 
+def attrInts (attrs : String) (k : String) : Option (List Int) :=
+  (attrNats attrs k).map fun l => l.map fun (n : Nat) => (n : Int)
+
+def attrStr (attrs : String) (k : String) : Option String :=
+  if attrs == "-" then none else
+  (attrs.splitOn ",").findSome? fun kv =>
+    match kv.splitOn "=" with
+    | [k', v] => if k' == k then some v else none
+    | _ => none
+
+/-- Operators whose rule is `UnaryOp` (the shape is copied). -/
+def unaryKeys : List String :=
+  ["Abs", "Acos", "Acosh", "Asin", "Asinh", "Atan", "Atanh", "Ceil", "Cos", "Cosh", "Elu", "Erf", "Exp", "Floor",
+   "Gelu", "HardSigmoid", "HardSwish", "LeakyRelu", "Log", "Reciprocal", "Relu", "Round", "Sigmoid", "Sin", "Sinh",
+   "Softplus", "Sqrt", "Swish", "Tan", "Tanh", "IsInf", "IsNaN", "Softmax", "LogSoftmax", "Sign", "Not",
+   "QuickGelu", "GeluMicrosoft", "Trilu", "CumSum", "LpNormalization", "EyeLike", "Clip"]
+
 def need (o : Option (Option STn)) : Except Err STn :=
   match o with
   | some (some t) => .ok t
@@ -139,49 +156,43 @@ def infer (key attrs : String) (ins : List (Option STn)) : Option String :=
   | "Shape" =>
     some <| showRes (do let a ← need ins[0]?; pure (shapeInfer (attrInt attrs "start") (attrInt attrs "end") a))
   | "Gather" =>
-    match ins with
-    | [some d, some i] =>
-      match d.values, i.constant, attrInt attrs "axis" with
-      | some vals, some (isScalar, idxs), some 0 =>
-        -- the axis is resolved against the data rank first: a scalar has rank 0 → IncorrectRank
-        match d with
-        | .scalar _ => some "err:IncorrectRank"
-        | _ => some (showRes (gatherValues vals isScalar idxs))
-      | _, _, _ => none
-    | _ => none
+    match ins, attrInt attrs "axis" with
+    | [some d, some i], some ax => some (showRes (gatherInfer ax d i))
+    | [some d, some i], none => some (showRes (gatherInfer 0 d i))
+    | _, _ => none
   | "Concat" =>
     match attrInt attrs "axis", ins.mapM id with
-    | some 0, some ts =>
-      match ts with
-      | .vector _ :: _ => (concatValues ts).map fun t => s!"ok {tensorText t}"
-      | _ => none
+    | some ax, some ts => (concatInfer ax ts).map showRes
     | _, _ => none
   | "Unsqueeze" =>
     match ins with
-    | [some d, some ax] =>
-      match ax.constant with
-      | some (_, idxs) =>
-        match d, idxs with
-        | .scalar _, [0] => (unsqueezeScalar d).map fun t => s!"ok {tensorText t}"
-        | _, _ => d.dims.map fun _ => showRes (unsqueezeShape d idxs)
-      | none => none
+    | [some d, some ax] => some (showRes (unsqueezeInfer d ax))
     | _ => none
   | "Squeeze" =>
     match ins with
-    | [some d, none] => (squeezeVector d).map fun t => s!"ok {tensorText t}"
-    | [some d, some ax] =>
-      match ax.constant with
-      | some (false, idxs) =>
-        match d.dims with
-        | none => none
-        | some ds =>
-          -- axes are resolved first (an out-of-range axis is an error even for the vector case)
-          match mapO (resolveIndex ds.length) idxs, d with
-          | none, _ => some "err:IncorrectRank"
-          | some rs, .vector [e] => if rs == [0] then some s!"ok {tensorText (.scalar e)}" else some (showRes (squeezeShape d idxs))
-          | some _, _ => some (showRes (squeezeShape d idxs))
-      | _ => none
+    | [some d, ax] => some (showRes (squeezeInfer d ax))
+    | [some d] => some (showRes (squeezeInfer d none))
     | _ => none
+  | "Conv" =>
+    match ins with
+    | some d :: some w :: _ =>
+      let n := (attrInts attrs "kernel_shape").map List.length |>.getD 0
+      let pad : PadSpec :=
+        match attrStr attrs "auto_pad" with
+        | some "SAME_UPPER" | some "SAME_LOWER" => .same
+        | _ => .fixed ((attrInts attrs "pads").getD (List.replicate (2 * n) 0))
+      some (showRes (convInfer ((attrInts attrs "strides").getD (List.replicate n 1))
+        ((attrInts attrs "dilations").getD (List.replicate n 1)) pad d w))
+    | _ => none
+  | "MaxPool" | "AveragePool" =>
+    match ins, attrInts attrs "kernel_shape", attrInts attrs "strides" with
+    | [some d], some ks, some ss =>
+      let pad : PadSpec :=
+        match attrStr attrs "auto_pad" with
+        | some "SAME_UPPER" | some "SAME_LOWER" => .same
+        | _ => .fixed ((attrInts attrs "pads").getD (List.replicate (2 * ks.length) 0))
+      some (showRes (poolInfer ks ss pad ((attrInt attrs "ceil_mode").getD 0 != 0) d))
+    | _, _, _ => none
   | "Transpose" =>
     match ins with
     | [some d] => d.dims.map fun _ => showRes (transposeInfer (attrNats attrs "perm") d)
@@ -206,7 +217,7 @@ def infer (key attrs : String) (ins : List (Option STn)) : Option String :=
     match ins, attrInt attrs "value" with
     | [some sh], some v => sh.values.map fun es => showRes (constantOfShapeInfer (some v) es)
     | _, _ => none
-  | _ => none
+  | k => if unaryKeys.contains k then (match ins with | some a :: _ => some s!"ok {tensorText (unaryInfer a)}" | _ => none) else none
 
 /-! ### `exec` requests: the reference execution semantics on concrete tensors -/
 
